@@ -385,6 +385,63 @@ def specStep (admitsNil : Bool) (h : List Op) (inp : In) (r : R) : Bool :=
   | .nil, .err o => (match o with | .dflt _ | .prefaultOk _ | .nil => false | _ => specNil admitsNil h o)
   | _, _ => false
 
+/-! ### The last clause: a non-nil input is validated exactly as by the schema without the modifiers
+
+  A schema type keeps, beside the embedded `core.ZodTypeInternals` (modifier state, checks), its own configuration
+  (`ZodRecordInternals{KeyType, ValueType, Loose}`, `ZodStructInternals{Shape, IsPartial, PartialExceptions}`,
+  `ZodObjectInternals{Shape, Catchall, UnknownKeys, IsPartial, …}`, …). Every modifier method clones the embedded part
+  and builds a NEW type-local internals struct around it; the value parser a non-nil input reaches reads that
+  configuration. `Cfg` is that configuration (any type), `validate` the type's value parser (any function of the
+  configuration and the input): the frame statement is about the modifier methods and the nil pass, whatever the parser. -/
+
+/-- Rows of the harness table by what their modifier methods do with the type's own configuration
+    (tied to the code by the regenerated table `Gen.C03Tables.cfgDrops`, `c03_cfg_drops_as_modelled`). -/
+inductive Kind where
+  | plain      -- every modifier method carries every configuration field
+  | record     -- `ZodRecord.NonOptional` rebuilds the internals with `Def` and `ValueType` only (types/record.go:169-181)
+  | structp    -- `ZodStruct.NonOptional` rebuilds them with `Def` and `Shape` only (types/struct.go:233-246)
+  deriving DecidableEq, Repr
+
+/-- Does the method for `op` on a schema of this kind rebuild the type's internals WITHOUT its configuration?
+    (The code as it is; `pending/C03-record-nonoptional-config`, `pending/C03-struct-nonoptional-partial` make it
+    `false` everywhere.) -/
+def dropsCfg : Kind → Op → Bool
+  | .record, .nonOptional => true
+  | .structp, .nonOptional => true
+  | _, _ => false
+
+/-- A schema with its type-local configuration. -/
+structure SchC (Cfg : Type) where
+  cfg : Cfg
+  admitsNil : Bool
+  i : I
+
+/-- A modifier method: the embedded internals as `apply`, the configuration copied field by field — or left at its
+    zero value where the method's composite literal omits it. -/
+def applyC {Cfg : Type} (k : Kind) (rule : RefineRule) (zero : Cfg) (s : SchC Cfg) (op : Op) : SchC Cfg :=
+  { s with cfg := if dropsCfg k op then zero else s.cfg, i := apply rule s.i op }
+
+def applyAllC {Cfg : Type} (k : Kind) (rule : RefineRule) (zero : Cfg) (s : SchC Cfg) (h : List Op) : SchC Cfg :=
+  h.foldl (applyC k rule zero) s
+
+/-- Result of a parse with the value parser's answer kept. -/
+inductive RX (Y : Type) where
+  | nilPath (r : R)      -- decided by the modifier pass (`handled`, or the prefault): what `ctxStep` yields
+  | accepted (y : Y)     -- the value parser's result for a non-nil input
+  | rejected             -- the value parser's issues
+  deriving DecidableEq, Repr
+
+/-- One `ParsePrimitive`/`ParseComplex` call with the type's value parser explicit: `none` = a nil input (untyped or
+    a nil pointer), `some x` = a non-nil input. `processModifiersCtx` is asked first, as in the code
+    (parser.go:33, 120); `.valid` stands for "some non-nil input" there — it reads nothing but `isNil`. -/
+def ctxStepX {Cfg X Y : Type} (validate : Cfg → X → Option Y) (c : Ctx) (s : SchC Cfg) : Option X → Ctx × RX Y
+  | none => ((ctxStep c ⟨s.admitsNil, s.i⟩ .nil).1, .nilPath (ctxStep c ⟨s.admitsNil, s.i⟩ .nil).2)
+  | some x =>
+    match processModifiersCtx c ⟨s.admitsNil, s.i⟩ .valid with
+    | (c', .notHandled) => (c', match validate s.cfg x with | some y => .accepted y | none => .rejected)
+    | (c', .prefault k valid) => (c', .nilPath (if valid then .ok (.src (.prefaultOk k)) else .err .checkError))
+    | (c', .handled r) => (c', .nilPath r)
+
 /-! ### Structure fingerprints: what the transcriptions above depend on, as the translator extracts it from the
     sources (`harness/cmd/c03 gen` → `Gozod/Gen/C03Tables.lean`; compared in `Proofs/C03.lean`) -/
 
@@ -414,5 +471,26 @@ def ctxSiteAllowed (file fn field kind : String) : Bool :=
   field == "ReportInput" &&
   ((file == "core/context.go" && (kind == "init" || kind == "read")) ||
    (file == "internal/issues/finalize.go" && fn == "FinalizeIssue" && kind == "read"))
+
+/-- Row kinds and modifier calls by the names the harness table / the regenerated table use. -/
+def kindOfName : String → Kind
+  | "record" => .record
+  | "structp" => .structp
+  | _ => .plain
+
+def modOpOfName : String → Option Op
+  | "Optional" => some .optional | "Nilable" => some .nilable | "Nullish" => some .nullish
+  | "NonOptional" => some .nonOptional
+  | "Default:v" => some (.dflt true) | "Default:i" => some (.dflt false)
+  | "DefaultFunc:v" => some (.dfltFn true) | "DefaultFunc:i" => some (.dfltFn false)
+  | "Prefault:v" => some (.prefault true) | "Prefault:i" => some (.prefault false)
+  | "PrefaultFunc:v" => some (.prefaultFn true) | "PrefaultFunc:i" => some (.prefaultFn false)
+  | _ => none
+
+/-- `dropsCfg` by names: does the model say that calling `op` on a row of this kind loses configuration? -/
+def cfgDropModelled (kind op : String) : Bool :=
+  match modOpOfName op with
+  | some o => dropsCfg (kindOfName kind) o
+  | none => false
 
 end Gozod.Mods
